@@ -231,24 +231,120 @@ func addExps(es []exp, l *checkLog, api expAPI) {
 	}
 }
 
-// setPartitions configures the topic partition counts through both setters, the overrides in two calls
-// (SetPartitions merges into what was set before).
-func setPartitions(tc *mocks.TopicConfig, def int32, over map[string]int32) {
-	a, b := map[string]int32{}, map[string]int32{}
+// cfgOp is one thing the test does to a mock's TopicConfig before producing (coq/C20/Model.v, cfgop).
+type cfgOp struct {
+	Kind    string     `json:"kind"` // default | set | edit | othermock
+	N       int32      `json:"n,omitempty"`
+	Entries [][2]int32 `json:"entries,omitempty"` // (topic index, count), ascending topics
+}
+
+// cfgOps builds, from the configuration a script wants in effect (def, over) and a variant number, a sequence of
+// operations that has exactly that effect if SetPartitions copies what it is given: the overrides go in through two
+// SetPartitions calls (the first possibly carrying a stale value the second corrects), and the harness then misuses
+// the maps it passed: it overwrites and extends the first one, and hands it to a second mock that overrides more topics.
+func cfgOps(def int32, over map[string]int32, variant int) []cfgOp {
+	var a, b, missing [][2]int32
 	i := 0
-	for _, t := range []string{"t0", "t1", "t2", "t3"} {
-		if n, ok := over[t]; ok {
-			if i%2 == 0 {
-				a[t] = n
-			} else {
-				b[t] = n
+	for t := 0; t < 4; t++ {
+		n, ok := over[topicName(t)]
+		switch {
+		case !ok:
+			missing = append(missing, [2]int32{int32(t), int32(50 + t)})
+		case i%2 == 0:
+			a = append(a, [2]int32{int32(t), n})
+			i++
+		default:
+			b = append(b, [2]int32{int32(t), n})
+			if variant&2 != 0 { // a stale value in the first call, corrected by the second
+				a = append(a, [2]int32{int32(t), n + 20})
 			}
 			i++
 		}
 	}
-	tc.SetPartitions(a)
-	tc.SetDefaultPartitions(def)
-	tc.SetPartitions(b)
+	ops := []cfgOp{{Kind: "set", Entries: a}}
+	if variant&1 != 0 {
+		var edits [][2]int32
+		for _, e := range a {
+			edits = append(edits, [2]int32{e[0], e[1] + 100})
+		}
+		ops = append(ops, cfgOp{Kind: "edit", Entries: append(edits, missing...)})
+	}
+	if variant&8 != 0 {
+		ops = append(ops, cfgOp{Kind: "default", N: def + 7})
+	}
+	if variant&4 != 0 {
+		om := [][2]int32{}
+		for _, e := range missing {
+			om = append(om, [2]int32{e[0], e[1] + 10})
+		}
+		for _, e := range a {
+			om = append(om, [2]int32{e[0], e[1] + 200})
+		}
+		ops = append(ops, cfgOp{Kind: "othermock", Entries: om})
+	}
+	ops = append(ops, cfgOp{Kind: "default", N: def}, cfgOp{Kind: "set", Entries: b})
+	if variant&16 != 0 {
+		var edits [][2]int32
+		for _, e := range b {
+			edits = append(edits, [2]int32{e[0], e[1] + 300})
+		}
+		ops = append(ops, cfgOp{Kind: "edit", Entries: append(edits, missing...)})
+	}
+	return ops
+}
+
+// applyCfg performs the operations on a mock's TopicConfig.
+func applyCfg(tc *mocks.TopicConfig, ops []cfgOp) {
+	var first, lastMap map[string]int32
+	for _, op := range ops {
+		switch op.Kind {
+		case "default":
+			tc.SetDefaultPartitions(op.N)
+		case "set":
+			m := map[string]int32{}
+			for _, e := range op.Entries {
+				m[topicName(int(e[0]))] = e[1]
+			}
+			tc.SetPartitions(m)
+			lastMap = m
+			if first == nil {
+				first = m
+			}
+		case "edit": // the caller goes on using its own map
+			for _, e := range op.Entries {
+				lastMap[topicName(int(e[0]))] = e[1]
+			}
+		case "othermock": // the first map is also given to another mock, which then gets overrides of its own
+			other := mocks.NewSyncProducer(&reporter{}, nil)
+			other.SetPartitions(first)
+			m := map[string]int32{}
+			for _, e := range op.Entries {
+				m[topicName(int(e[0]))] = e[1]
+			}
+			other.SetPartitions(m)
+		}
+	}
+}
+
+func coqCfgOps(ops []cfgOp) string {
+	var it []string
+	for _, op := range ops {
+		var es []string
+		for _, e := range op.Entries {
+			es = append(es, fmt.Sprintf("(%d, %d)", e[0], e[1]))
+		}
+		switch op.Kind {
+		case "default":
+			it = append(it, cf.App("CfgDefault", cf.Z(int64(op.N))))
+		case "set":
+			it = append(it, cf.App("CfgSet", cf.List(es)))
+		case "edit":
+			it = append(it, cf.App("CfgCallerEdits", cf.List(es)))
+		case "othermock":
+			it = append(it, cf.App("CfgOtherMock", cf.List(es)))
+		}
+	}
+	return cf.List(it)
 }
 
 // hangs counts the scripts that blocked; after two of them for one mock the remaining scripts of that mock are
